@@ -10,6 +10,7 @@ import (
 	"fmt"
 	"math/big"
 	"reflect"
+	"runtime"
 
 	"github.com/holiman/uint256"
 	"github.com/kardiachain/go-kardia/lib/rlp"
@@ -231,7 +232,7 @@ func vectors() []vec {
 	return V
 }
 
-var fixedCases = 6
+var fixedCases = 7
 
 func groupFixed(c *core.Case) {
 	e := &env{c, c.Run}
@@ -471,7 +472,89 @@ func groupFixed(c *core.Case) {
 		}
 		run.Count("stream_api_sequences", 1)
 		run.Nontrivial("fixed|stream-api")
+	case 6:
+		fixedListBounds(e)
 	}
+}
+
+// fixedListBounds: "For non-toplevel values, Stream returns ErrElemTooLarge for values that do not fit into
+// the enclosing list" (NewStream documentation). Probed directly at Stream.Kind after entering the outer list.
+func fixedListBounds(e *env) {
+	c, run := e.c, e.run
+	type probe struct {
+		in   string
+		fits bool // the element (header + announced size) lies within the enclosing list
+		note string
+	}
+	probes := []probe{
+		{"c3820000", true, "2-byte string in a 3-byte list"},
+		{"c3c20001", true, "2-byte list in a 3-byte list"},
+		{"c1820000", false, "string announcing 2 bytes, list has 0 left after the header"},
+		{"c1c20001", false, "list announcing 2 bytes, list has 0 left after the header"},
+		{"c2820000", false, "string announcing 2 bytes, list has 1 left after the header"},
+		{"c2c20055", false, "list announcing 2 bytes, list has 1 left after the header"},
+		{"c4b838000000", false, "string with long header announcing 56 bytes in a 4-byte list"},
+		{"c3f838000000", false, "list with long header: header alone (2) fits, announced 56 does not"},
+		{"c2c1c101", false, "second level: c1 inside c1 inside c2; innermost announces 1, parent has 0 left"},
+	}
+	var failed []string
+	for _, p := range probes {
+		x, _ := hex.DecodeString(p.in)
+		for _, limited := range []bool{true, false} {
+			var kerr, lerr error
+			run.Eval(1)
+			c.Guard("Stream.Kind at list element", func() interface{} { return p.in }, func() {
+				var s *rlp.Stream
+				if limited {
+					s = rlp.NewStream(bytes.NewReader(x), 0)
+				} else {
+					s = rlp.NewStream(&opaqueBR{bytes.NewReader(x)}, 0)
+				}
+				_, lerr = s.List()
+				if p.in == "c2c1c101" && lerr == nil {
+					_, lerr = s.List()
+				}
+				_, _, kerr = s.Kind()
+			})
+			run.Count("list_bound_probes", 1)
+			switch {
+			case lerr != nil:
+				failed = append(failed, fmt.Sprintf("%s: outer List: %v", p.in, lerr))
+			case p.fits && kerr != nil:
+				e.viol("canonical-rejected:Stream.Kind", fmt.Sprintf("%s (%s): Kind returns %v for an element that fits", p.in, p.note, kerr), p.in)
+			case !p.fits && kerr == nil:
+				failed = append(failed, fmt.Sprintf("%s (%s, input limit %v): Kind returns no error", p.in, p.note, limited))
+			case !p.fits && kerr != rlp.ErrElemTooLarge && kerr != rlp.ErrValueTooLarge:
+				failed = append(failed, fmt.Sprintf("%s (%s): Kind returns %v", p.in, p.note, kerr))
+			}
+		}
+	}
+	if len(failed) > 0 {
+		e.viol("elem-larger-than-list-not-rejected:Stream.Kind",
+			"Stream.Kind accepts a list element that does not fit into the enclosing list (it compares the announced size with the list's remaining size BEFORE the element's own header was deducted): "+failed[0],
+			map[string]interface{}{"failed_probes": failed})
+	}
+	// consequence on a Stream without input limit: after the inner list is entered the outer list's remaining size
+	// wraps around, the next element may announce anything
+	x, _ := hex.DecodeString("c2c20055ba100000") // outer list of 2 bytes; then, beyond it, a string announcing 1 MiB
+	var v interface{}
+	var derr error
+	var delta uint64
+	if !c.Guard("list-bound-escape", func() interface{} { return hex.EncodeToString(x) }, func() {
+		runtime.ReadMemStats(&ms1)
+		derr = rlp.NewStream(&opaqueBR{bytes.NewReader(x)}, 0).Decode(&v)
+		runtime.ReadMemStats(&ms2)
+		delta = ms2.TotalAlloc - ms1.TotalAlloc
+	}) {
+		if lim := allowance(len(x), 64); delta > lim {
+			e.viol("alloc:list-bound-escape:Stream(no-limit)", fmt.Sprintf("decoding %x (a 2-byte list followed by garbage) from a Stream without input limit allocates %d bytes (allowance %d), error: %v", x, delta, lim, derr),
+				map[string]interface{}{"input": hex.EncodeToString(x), "allocated": delta, "error": fmt.Sprint(derr)})
+		}
+		if derr == nil {
+			e.viol("noncanonical-accepted:interface{}:size-exceeds-input", "list-bound escape input accepted", hex.EncodeToString(x))
+		}
+	}
+	run.Nontrivial("fixed|list-bounds")
 }
 
 func eqWant(want, got interface{}) bool {
